@@ -173,6 +173,7 @@ impl Property for P {
     }
     fn rule(&self) -> String {
         "Swept exhaustively: the 14 small-order encodings (u in {0,1,p-1,p,p+1, two order-8 values} x bit 255) x role {recipient key at sender, encapsulated key at receiver, sender identity key at receiver} x 4 modes x 3 KDFs x {sealing, export-only} x {setup, Kem::encap/decap, single-shot}, against 2 private-key sets. \
+         Swept, decided by the arithmetic oracle: v + k*p (k = 0..3 while it fits 256 bits) and its neighbours (+-1, +-2, +-19) for the seven small-order u values v - the entries of low-order lists written for full 256-bit reduction, some of which are ordinary keys under RFC 7748 decoding - in 3 roles x 3 APIs, and all 256 single-bit neighbours of the seven encodings in 3 roles. \
          Generated negatives: random 32-byte strings (with and without bit 255), small-order encodings with one bit flipped or an offset added, p+2..p+18, and keys related to the session (the expected sender key, the recipient's own key, the sender's ephemeral key presented in each role). \
          Oracle: the harness's own RFC 7748 ladder decides whether any DH in the operation is zero: zero => sender entry points Err(EncapError), receiver ones Err(DecapError), nothing produced; non-zero => setup succeeds (never rejected). \
          Non-trivial: small-order positives and near-miss negatives (everything except plain random strings)."
@@ -269,11 +270,83 @@ impl Property for P {
                 }
             }
         }
+        // integer aliases: a list of "low-order encodings" written for implementations that reduce
+        // the whole 256-bit string mod p contains v + k*p for k = 0, 1, 2; RFC 7748 drops bit 255
+        // first, so only some of them decode to a small-order u. The arithmetic oracle decides each
+        // (v + k*p and its neighbours, v over the seven small-order u values), in every role.
+        let mut aliases = Vec::new();
+        {
+            let p_le = {
+                let mut p = [0xffu8; 32];
+                p[0] = 0xed;
+                p[31] = 0x7f;
+                p
+            };
+            let add = |a: &[u8; 32], b: &[u8; 32]| -> Option<[u8; 32]> {
+                let mut out = [0u8; 32];
+                let mut c = 0u16;
+                for i in 0..32 {
+                    let t = a[i] as u16 + b[i] as u16 + c;
+                    out[i] = t as u8;
+                    c = t >> 8;
+                }
+                if c == 0 { Some(out) } else { None }
+            };
+            let small7: Vec<[u8; 32]> = small.iter().filter(|u| u[31] & 0x80 == 0).copied().collect();
+            let mut seen = std::collections::BTreeSet::new();
+            for v in &small7 {
+                let mut cur = Some(*v);
+                for k in 0..4u8 {
+                    let Some(x) = cur else { break };
+                    for delta in [0i8, 1, -1, 2, -2, 19, -19] {
+                        let mut d = [0u8; 32];
+                        d[0] = delta.unsigned_abs();
+                        let y = if delta >= 0 {
+                            add(&x, &d)
+                        } else {
+                            // x - |delta| without borrow handling beyond the low bytes is enough here: skip on underflow
+                            let mut out = x;
+                            let mut borrow = delta.unsigned_abs() as i16;
+                            for b in out.iter_mut() {
+                                let t = *b as i16 - borrow;
+                                if t < 0 { *b = (t + 256) as u8; borrow = 1 } else { *b = t as u8; borrow = 0; break }
+                            }
+                            if borrow == 0 { Some(out) } else { None }
+                        };
+                        if let Some(y) = y {
+                            if seen.insert(y) {
+                                for role in [Role::RecipientAtSender, Role::EncAtReceiver, Role::SenderIdAtReceiver] {
+                                    for api in [Api::Setup, Api::Kem, Api::SingleShot] {
+                                        let s = Suite { kem: KemId::X25519, kdf: KdfId::Sha256, aead: AeadId::ChaCha };
+                                        let mode = if role == Role::SenderIdAtReceiver { 2 } else { 0 };
+                                        aliases.push(Case { sess: gen::cell_session(s, mode, 15), role, api, how: format!("alias:v+{}p{:+}", k, delta), u: Bytes(y.to_vec()) });
+                                    }
+                                }
+                            }
+                        }
+                    }
+                    cur = add(&x, &p_le);
+                }
+            }
+            // every single-bit neighbour of the seven small-order encodings (bit 255 included: the oracle
+            // knows those twins are small-order again), as encapsulated key and as sender identity key
+            for v in &small7 {
+                for bit in 0..256usize {
+                    let mut y = *v;
+                    y[bit / 8] ^= 1 << (bit % 8);
+                    for role in [Role::EncAtReceiver, Role::SenderIdAtReceiver, Role::RecipientAtSender] {
+                        let s = Suite { kem: KemId::X25519, kdf: KdfId::Sha256, aead: AeadId::ChaCha };
+                        let mode = if role == Role::SenderIdAtReceiver { 2 } else { 0 };
+                        aliases.push(Case { sess: gen::cell_session(s, mode, 16), role, api: Api::Kem, how: format!("bit-neighbour:{}", bit), u: Bytes(y.to_vec()) });
+                    }
+                }
+            }
+        }
         let mut all_ff = [0xffu8; 32];
         near.push(Case { sess: gen::cell_session(Suite { kem: KemId::X25519, kdf: KdfId::Sha256, aead: AeadId::ChaCha }, 0, 13), role: Role::EncAtReceiver, api: Api::Setup, how: "near-miss:2^256-1".into(), u: Bytes(all_ff.to_vec()) });
         all_ff[31] = 0x7f;
         near.push(Case { sess: gen::cell_session(Suite { kem: KemId::X25519, kdf: KdfId::Sha256, aead: AeadId::ChaCha }, 0, 13), role: Role::EncAtReceiver, api: Api::Setup, how: "near-miss:2^255-1".into(), u: Bytes(all_ff.to_vec()) });
-        vec![("small_order_14_x_roles_x_modes_x_kdf_x_aead_x_api".into(), v), ("fixed_near_misses".into(), near)]
+        vec![("small_order_14_x_roles_x_modes_x_kdf_x_aead_x_api".into(), v), ("fixed_near_misses".into(), near), ("integer_aliases_and_bit_neighbours_of_small_order_u".into(), aliases)]
     }
     fn check(&self, case: &Case, obs: &mut Obs) -> Verdict {
         check(case, obs)
